@@ -47,6 +47,7 @@ fn show(a: Action) -> String {
 fn unary(r: &mut Report) {
 	for a in all_actions() {
 		r.eval(1);
+		r.case(&[16, s(a) as u64, variant(a).len() as u64]);
 		let ra = a.ratio();
 		// ratio in [-1,1], matches the strength
 		match (a, ra) {
@@ -114,6 +115,7 @@ fn unary(r: &mut Report) {
 	let mut prev = i32::MIN;
 	for i in i8::MIN..=i8::MAX {
 		r.eval(1);
+		r.case(&[161, i as u64]);
 		let a = Action::from(i);
 		let a2 = Action::from_analog(i);
 		let a3 = Action::from(Some(i));
@@ -151,6 +153,7 @@ fn pairs(ctx: &Ctx, r: &mut Report) {
 		}
 		for &b in &acts {
 			r.eval(1);
+			r.case(&[162, s(a) as u64, variant(a).len() as u64, s(b) as u64, variant(b).len() as u64]);
 			// subtraction
 			match guard(|| a - b) {
 				Ok(d) => {
@@ -214,6 +217,8 @@ fn triples(ctx: &Ctx, r: &mut Report) {
 			continue;
 		}
 		for j in 0..n {
+			// one case = the row (a, b, every c)
+			r.case(&[163, i as u64, j as u64]);
 			let eij = eq[i * n + j];
 			let lij = lt[i * n + j];
 			if !eij && !lij {
@@ -296,6 +301,7 @@ fn floats32(ctx: &Ctx, r: &mut Report) {
 		let mut n = 0u64;
 		while k < start + per {
 			let x = f32::from_bits(f32_order_to_bits(k));
+			r.case(&[164, x.to_bits() as u64]);
 			let a = Action::from(x);
 			let st = check_float(x as f64, a, "f32", r);
 			if !x.is_nan() {
@@ -351,6 +357,7 @@ fn boundaries(r: &mut Report) {
 	let mut prev = i32::MIN;
 	for &v in &all {
 		r.eval(1);
+		r.case(&[165, v.to_bits()]);
 		let a = Action::from(v);
 		let st = check_float(v, a, "f64", r);
 		if st < prev {
